@@ -99,14 +99,36 @@ func checkC05Rest(c *core.Ctx) {
 		if len(lits) < 2 {
 			r2.Missing("LayersDecoder/loops", "fewer than two generated loops found")
 		} else {
-			ref := alphaNormalize(p.Fset, info, lits[0].Body, decl)
-			for i, fl := range lits {
-				got := alphaNormalize(p.Fset, info, fl.Body, decl)
-				key := fmt.Sprintf("gopacket.LayersDecoder/loop#%d", i)
-				if got == ref {
-					r2.OK(key, p.Pos(fl.Pos()), "identical to loop#0 up to renaming")
-				} else {
-					r2.Violate(key, p.Pos(fl.Pos()), "this container's decode loop differs from the first one: parsers give different results depending on the container used", map[string]any{"first_difference": firstDiff(ref, got)})
+			_ = info
+			// compare the loops as canonical SSA (insensitive to names, aliases, jump-only blocks,
+			// break-then-return vs return, and static vs interface calls of the same method)
+			var fns []*ssa.Function
+			for _, an := range ld.AnonFuncs {
+				hasLoop := false
+				for _, b := range an.Blocks {
+					for _, su := range b.Succs {
+						if su.Dominates(b) {
+							hasLoop = true
+						}
+					}
+				}
+				if hasLoop {
+					fns = append(fns, an)
+				}
+			}
+			sort.Slice(fns, func(i, j int) bool { return fns[i].Pos() < fns[j].Pos() })
+			if len(fns) < 2 {
+				r2.Missing("LayersDecoder/loops", "fewer than two loop closures in the SSA")
+			} else {
+				ref := ssaCanon(fns[0])
+				for i, f := range fns {
+					got := ssaCanon(f)
+					key := fmt.Sprintf("gopacket.LayersDecoder/loop#%d", i)
+					if got == ref {
+						r2.OK(key, p.Pos(f.Pos()), "same operations in the same order as loop#0 (canonical SSA)")
+					} else {
+						r2.Violate(key, p.Pos(f.Pos()), "this container's decode loop differs from the first one: parsers give different results depending on the container used", map[string]any{"first_difference": firstDiff(ref, got)})
+					}
 				}
 			}
 			// the loop itself: must append typ only after a successful DecodeFromBytes, follow NextLayerType and LayerPayload, stop on empty payload
